@@ -3,26 +3,26 @@
 import json
 reg = json.load(open('/verif/harness/registry.json'))
 texts = {
- 'C01': ("one scan of the real RunOnce (filterNodes, reaper, force reaper, TryDeleteNodes, aws.DeleteNodes, k8s.DeleteNodes) executed symbolically from an arbitrary cluster snapshot; every journalled TerminateInstanceInAutoScalingGroup / DELETE node is an SMT query against the statement's condition; restart = freshly built controller", "§3 C01"),
- 'C02': ("two RunOnce calls of one controller with a symbolic gap; scan 1 arms (or not) the real scale lock through ScaleUp; scan 2 meets an arbitrary cluster; no-activity-inside / acts-again-after are SMT queries over the gap", "§3 C02"),
- 'C03': ("scan-level symbolic execution with min/max (incl. auto-discovered), rates, cordon flags and requests symbolic; taint count against untainted-min and the below-minimum recovery are SMT queries", "§3 C03"),
- 'C04': ("scan-level symbolic execution with max_nodes, cloud max, desired and requests independent symbolic integers; every SetDesiredCapacity argument is checked against min(max_nodes, cloud max) and clamped requests must land on it", "§3 C04"),
- 'C05': ("symbolic execution of calcPercentUsage + calcScaleUpDelta; float64 over-approximated by per-operation error terms, oracle in exact integers; unsat for every request total within the shape", "§3 C05"),
- 'C06': ("scan-level symbolic execution; the band oracle is recomputed in exact integer arithmetic from the pre-scan snapshot, with thresholds, rates, min_nodes and requests symbolic/forked", "§3 C06"),
- 'C07': ("scan-level symbolic execution with the real AWS provider over a stateful simulated ASG whose desired capacity at call time is journalled; creation times symbolic; failed writes injected", "§3 C07"),
- 'C08': ("scan-level symbolic execution through the real sort.Sort with symbolic creation times (every order, ties, zero value) and injected get/update failures", "§3 C08"),
- 'C09': ("scan-level symbolic execution with a symbolic cordon flag on nodes of every class; no journalled call may target a node whose flag is true; band decisions recomputed without cordoned capacity", "§3 C09"),
+ 'C01': ("one scan of the real RunOnce (filterNodes, reaper, force reaper, TryDeleteNodes, aws.DeleteNodes, k8s.DeleteNodes) executed symbolically from an arbitrary cluster snapshot; every journalled TerminateInstanceInAutoScalingGroup / DELETE node is an SMT query against the statement's condition; restart = freshly built controller; shapes with an earlier scan of the same controller (pod map, group over max_nodes) and pods of five kinds", "§3 C01"),
+ 'C02': ("two RunOnce calls of one controller with a symbolic gap; scan 1 arms (or not) the real scale lock through ScaleUp; scan 2 meets an arbitrary cluster; no-activity-inside / acts-again-after are SMT queries over the gap; the acceptance instant is read inside the fake cloud, so the in-cool-down premise is exact; three-scan chains, scan-1 variants (refused, covered by untainting), auto-discovered limits edited between scans", "§3 C02"),
+ 'C03': ("scan-level symbolic execution with min/max (incl. auto-discovered), rates, cordon flags and requests symbolic; taint count against untainted-min and the below-minimum recovery are SMT queries; shapes with an earlier scan, with the controller built by the real NewController, and with a flaky cloud (every other describe call fails)", "§3 C03"),
+ 'C04': ("scan-level symbolic execution with max_nodes, cloud max, desired and requests independent symbolic integers; every SetDesiredCapacity argument is checked against min(max_nodes, cloud max) and clamped requests must land on it; launch-template mode (what the attach calls add up to), describe calls down after an earlier scale-up, typed cloud errors", "§3 C04"),
+ 'C05': ("symbolic execution of calcPercentUsage + calcScaleUpDelta; float64 over-approximated by per-operation error terms, oracle in exact integers; unsat for every request total within the shape; scan-level shapes incl. scale-up from zero along histories (node size changed, observing scan refused), 64 TiB nodes", "§3 C05"),
+ 'C06': ("scan-level symbolic execution; the band oracle is recomputed in exact integer arithmetic from the pre-scan snapshot, with thresholds, rates, min_nodes and requests symbolic/forked; the optional triggers carry necessary conditions (a truly unschedulable pod / an untainted node past the age limit)", "§3 C06"),
+ 'C07': ("scan-level symbolic execution with the real AWS provider over a stateful simulated ASG whose desired capacity at call time is journalled; creation times symbolic; failed writes injected, unreachable nodes, API outage mid-scan, all taint effects, doubly tainted nodes", "§3 C07"),
+ 'C08': ("scan-level symbolic execution through the real sort.Sort with symbolic creation times (every order, ties, zero value) and injected get/update failures; dry mode (tracker as the set of tainted nodes), empty/shared provider ids, sibling-key taints, nodes listed out of age order with the oldest unreachable", "§3 C08"),
+ 'C09': ("scan-level symbolic execution with a symbolic cordon flag on nodes of every class; no journalled call may target a node whose flag is true; band decisions recomputed without cordoned capacity; max_node_age rotation, a cordon racing with escalator's write, Terminating instances still listed", "§3 C09"),
  'C10': ("scan-level symbolic execution with annotation/class/age symbolic; protected nodes never removed, eligible siblings still removed, annotated nodes still tainted", "§3 C10"),
- 'C11': ("two symbolic runs of the same two-group world (A dry / A not dry): A's journal must be empty, B's journals must be equal call by call", "§3 C11"),
- 'C12': ("two symbolic runs (group A arbitrary / group A empty) with shared group-B inputs: B's journals must be equal call by call; A exercises non-fatal failures", "§3 C12"),
- 'C13': ("symbolic execution of ComputePodResourceRequest / CalculatePodsRequestedUsage / CalculateNodesCapacity / calcPercentUsage against the definition written independently in the harness; values symbolic, presence and map order forked", "§3 C13"),
- 'C14': ("the pod / default / node filter functions executed on every pod shape of a small-scope universe (forks enumerated by the solver) against the statement's predicate written independently", "§3 C14"),
- 'C15': ("symbolic execution of AddToBeRemovedTaint / DeleteToBeRemovedTaint over a recording client: the PUT body is diffed against the fetched node; taint slot, effect, faults forked; clock symbolic", "§3 C15"),
- 'C16': ("symbolic execution of ValidateNodeGroup with one (quick) or two (thorough) option groups unconstrained; accepted implies the statement's invariants is an SMT query", "§3 C16"),
- 'C17': ("symbolic execution of IncreaseSize (SetDesiredCapacity and fleet paths) over a recording simulated AWS; desired/max/d symbolic; attach batches checked by set algebra", "§3 C17"),
- 'C18': ("symbolic execution of the fleet path with the failing attach call index symbolic (every k) and the failure kind forked; attach/terminate set algebra against the acquired ids; plus a two-scan check that no lock is taken", "§3 C18"),
- 'C19': ("symbolic execution of DeleteNodes (min, desired, membership, failing call forked/symbolic) and of a reaping scan for the k8s-after-cloud ordering and the fatal not-in-group error", "§3 C19"),
- 'C20': ("scan-level symbolic execution over oddly shaped objects with every fake API call allowed to fail within a budget; a path ending in a Go panic is a violation (replayed natively); second fault-free scan", "§3 C20"),
+ 'C11': ("two symbolic runs of the same two-group world (A dry / A not dry): A's journal must be empty, B's journals must be equal call by call; tracked nodes with real (also unreadable) taints; one shape assembled by the real NewController", "§3 C11"),
+ 'C12': ("two symbolic runs (group A arbitrary / group A empty) with shared group-B inputs: B's journals must be equal call by call; A exercises non-fatal failures; a group without nodes and pods gets no calls; cmd.setupCloudProvider hands each group its own name, cloud group and AWS settings", "§3 C12"),
+ 'C13': ("symbolic execution of ComputePodResourceRequest / CalculatePodsRequestedUsage / CalculateNodesCapacity / calcPercentUsage against the definition written independently in the harness; values symbolic, presence and map order forked; pod phase, sidecar init containers, node readiness and status.capacity are free and must not matter; scan-level band oracle with garbage taints and terminating pods", "§3 C13"),
+ 'C14': ("the pod / default / node filter functions executed on every pod shape of a small-scope universe (forks enumerated by the solver) against the statement's predicate written independently; plus the listers the real NewClient builds for default and a labelled group in either configuration order", "§3 C14"),
+ 'C15': ("symbolic execution of AddToBeRemovedTaint / DeleteToBeRemovedTaint over a recording client: the PUT body is diffed against the fetched node; taint slot, effect, faults forked; clock symbolic; conflicts with a concurrent writer that adds and removes taints", "§3 C15"),
+ 'C16': ("symbolic execution of ValidateNodeGroup with one (quick) or two (thorough) option groups unconstrained; accepted implies the statement's invariants is an SMT query; plus cmd.setupNodeGroups over files of up to three groups: the process goes on iff every group is safe (log.Fatal observed as an exit)", "§3 C16"),
+ 'C17': ("symbolic execution of IncreaseSize (SetDesiredCapacity and fleet paths) over a recording simulated AWS; desired/max/d symbolic; attach batches checked by set algebra; rejected requests make no write (tags included); sequences after deletions; fleets that under- or over-deliver", "§3 C17"),
+ 'C18': ("symbolic execution of the fleet path with the failing attach call index symbolic (every k) and the failure kind forked; attach/terminate set algebra against the acquired ids; plus a two-scan check that no lock is taken; histories of up to four attempts on one node-group object (the give-up exit observed), typed AWS errors, persistent attach failures, partial fills", "§3 C18"),
+ 'C19': ("symbolic execution of DeleteNodes (min, desired, membership, failing call forked/symbolic) and of a reaping scan for the k8s-after-cloud ordering and the fatal not-in-group error; histories (membership change at equal size, earlier batch failed midway, Terminating instance still listed), batches of 51-101 nodes, the real RunForever loop", "§3 C19"),
+ 'C20': ("scan-level symbolic execution over oddly shaped objects with every fake API call allowed to fail within a budget; a path ending in a Go panic is a violation (replayed natively); second fault-free scan; dry-mode variants; the real main loop RunForever with ticker, stop channel and failures; triggers on groups without untainted nodes; doubly tainted nodes", "§3 C20"),
 }
 notes = {
  'C16': "YAML/JSON decode equivalence is NOT claimed (reflection-driven decoder, outside the executor's reach); trusted: go/ssa, time.ParseDuration bridged natively on concrete strings, z3",
